@@ -33,8 +33,9 @@ func c15Spec(name string) map[string]interface{} {
 	switch name {
 	case "X":
 		// a failing action is handled by the node's own branches (actionErrorBranches): part of the specification
-		// source, and so of what a store has to hold
-		bump := act(`if (_.bindings["?n"] === "boom") { throw "boom"; } var c = (_.bindings.count || 0) + 1; _.out({x: c, from: _.props.mid}); return {count: c, "?one": 1};`, "start")
+		// source, and so of what a store has to hold.  The script also keeps a tally on the global object and on a
+		// built-in: whatever survives there is in no store (nothing does: every execution starts afresh)
+		bump := act(`if (_.bindings["?n"] === "boom") { throw "boom"; } var c = (_.bindings.count || 0) + 1; var g = Function("return this")(); g.tally = (g.tally || 0) + 1; Math.tally = (Math.tally || 0) + 1; _.out({x: c, from: _.props.mid, tally: g.tally + Math.tally}); return {count: c, "?one": 1};`, "start")
 		bump["branching"] = map[string]interface{}{"branches": []interface{}{
 			map[string]interface{}{"pattern": map[string]interface{}{"actionError": "?e"}, "target": "hit"}, map[string]interface{}{"target": "start"}}}
 		return map[string]interface{}{"name": "X", "id": "one-id-for-all", "actionErrorBranches": true, "nodes": map[string]interface{}{
